@@ -142,15 +142,30 @@ def disjointness(cx):
                         out.append((key.split(".")[1], m, s))
                         break
         return out
+    def unconditional(f, o, wanted, name):
+        """after the `id is tracked` test, every wanted set operation lies on every path to the return"""
+        g = cx.pg(f)
+        tracked = lambda lits: any(l[0] == "is" and l[2] is True and l[1][0] == "call" and l[1][1].endswith("IncrChangeMap::contains") for l in lits)
+        for k, m in wanted:
+            blocks = {s.block for kk, mm, s in o if (kk, mm) == (k, m)}
+            ok, ne = g.after_edge_must_pass(tracked, lambda b: b in blocks, assume=getattr(unconditional, "assume", None))
+            cx.check(ok and ne >= 1 and bool(blocks), name + ":always:" + k + "." + m, "%s: for a tracked id, %s.%s(id) happens on every path (not behind a further condition)" % (name, k, m))
     mv = cx.fn("Changer::make_voter")
     o = ops(mv)
+    unconditional(mv, o, [("incoming", "insert"), ("learners", "remove"), ("learners_next", "remove")], "make_voter")
     got = {(k, m) for k, m, s in o}
     cx.check({("incoming", "insert"), ("learners", "remove"), ("learners_next", "remove")} <= got, "make_voter", "make_voter: incoming += id; learners -= id; learners_next -= id (found %s)" % sorted(got))
     ml = cx.fn("Changer::make_learner")
     o = ops(ml)
     got = {(k, m) for k, m, s in o}
     cx.check({("incoming", "remove"), ("learners", "insert"), ("learners_next", "insert")} <= got, "make_learner", "make_learner: incoming -= id; then learners_next += id or learners += id (found %s)" % sorted(got))
+    # make_learner: after `id is tracked` and `not already a learner`, the removals are unconditional
     g = cx.pg(ml)
+    notl = lambda lits: any(l[0] == "is" and l[2] is False and l[1][0] == "call" and l[1][1].endswith("::contains") and contains(fld("Configuration.learners"), l[1]) and not contains(fld("Configuration.learners_next"), l[1]) for l in lits)
+    for k2, m2 in (("incoming", "remove"), ("learners_next", "remove")):
+        blocks = {s.block for kk, mm, s in o if (kk, mm) == (k2, m2)}
+        ok, ne = g.after_edge_must_pass(notl, lambda b: b in blocks)
+        cx.check(ok and ne >= 1 and bool(blocks), "make_learner:always:" + k2, "make_learner: a tracked non-learner always leaves %s" % k2)
     for k, m, s in o:
         if m != "insert":
             continue
@@ -161,6 +176,7 @@ def disjointness(cx):
         cx.check(ok, "make_learner:" + k, "the demoted node is staged in learners_next iff it is still an outgoing voter, else it becomes a learner at once", s)
     rm = cx.fn("Changer::remove")
     o = ops(rm)
+    unconditional(rm, o, [("incoming", "remove"), ("learners", "remove"), ("learners_next", "remove")], "remove")
     got = {(k, m) for k, m, s in o}
     cx.check({("incoming", "remove"), ("learners", "remove"), ("learners_next", "remove")} <= got, "remove", "remove: id leaves incoming, learners and learners_next (found %s)" % sorted(got))
     g = cx.pg(rm)
